@@ -141,13 +141,18 @@ def run_c18(job):
         out["via_set"] = digest(trace.run_traced(dict(job, trace=False), opt=empty))
         out["via_ctor"] = digest(trace.run_traced(dict(job, trace=False), opt=cls(built)))
         # re-configuration of an instance that has ALREADY RUN under another configuration (HyperTuner's use of one instance per grid)
-        other = dict(optimizers.CFGS[name][1])
-        other.update({"max_cycles": 3, "fitness_error": None, "population_size": int(other["population_size"] * 1.5)})
-        try:
-            used = cls(cfgcls(**other))
-            trace.run_traced(dict(job, trace=False, seed=(job.get("seed") or 0) + 1), opt=used)
-            used.set_config_parameters(d)
-            out["via_reconfigure"] = digest(trace.run_traced(dict(job, trace=False), opt=used))
-        except Exception as e:  # noqa — the other configuration was not accepted: nothing to compare
-            out["via_reconfigure"] = out["via_ctor"]
+        out["via_reconfigure"] = out["via_ctor"]
+        for grow in (1.0, 1.5):     # the documented configuration (same population size), and a larger population
+            other = dict(optimizers.CFGS[name][1])
+            other.update({"max_cycles": 3, "fitness_error": None, "population_size": int(other["population_size"] * grow)})
+            try:
+                used = cls(cfgcls(**other))
+                trace.run_traced(dict(job, trace=False, seed=(job.get("seed") or 0) + 1), opt=used)
+                used.set_config_parameters(d)
+                dg = digest(trace.run_traced(dict(job, trace=False), opt=used))
+                if dg != out["via_ctor"]:
+                    out["via_reconfigure"] = dg
+                    break
+            except Exception as e:  # noqa — the other configuration was not accepted: nothing to compare
+                pass
     return out
